@@ -170,6 +170,7 @@ UNIVERSE = {
     7: ('sq', 1, 0), 8: ('lam', 1, 0),
     10: ('c20m_a.a0', 7), 11: ('c20m_a.a1', 8), 12: ('c20m_a.KA.am', 9), 13: ('c20m_a.one', 1, 0), 14: ('c20m_a.lam2', 1, 0),
     40: ('c20m_w.norm_a', 15), 41: ('c20m_w.norm_b', 15),
+    50: ('ex0', 16), 51: ('ex1', 17),
     20: ('c20m_b.b0', 10), 21: ('c20m_b.wb', 2), 22: ('c20m_b.KB.bm', 11),
     30: ('c20pkg.pinit', 12), 31: ('c20pkg.pw', 2), 32: ('c20pkg.sub.ps0', 13), 33: ('c20pkg.sub.KS.pm', 14),
 }
@@ -212,6 +213,10 @@ def main():
     EXT.page = lambda s, *a, **k: pages.append(s)
     with contextlib.redirect_stdout(io.StringIO()):
         ip.run_cell(raw_cell=CELL)
+    # functions without a file: made by exec() under pseudo file names that have no linecache entry
+    # (what dataclass / namedtuple generated methods, doctests, REPL input look like)
+    exec(compile(loop_src('ex0', 12, 12), '<string>', 'exec'), ip.user_ns)
+    exec(compile('\n' * 6 + loop_src('ex1', 13, 13), '<c20 generated code>', 'exec'), ip.user_ns)
     grabbed = []
 
     def _c20_grab():
@@ -243,6 +248,12 @@ def main():
             res.append([fid if not extra else -1, vec])
         return res
 
+    def interp_state():
+        import threading
+        mon = getattr(sys, 'monitoring', None)
+        tools = tuple(mon.get_tool(i) for i in range(6)) if mon else ()
+        return (tools, repr(sys.gettrace()), repr(sys.getprofile()), repr(threading.gettrace()), repr(threading.getprofile()))
+
     def classify(obj, profs):
         if obj is None:
             return None
@@ -268,6 +279,7 @@ def main():
                             os.unlink(iv[key + '_path'])
                 line = iv['line'].replace('@T@', iv.get('T_path', '')).replace('@D@', iv.get('D_path', ''))
                 b_before = classify(builtins.__dict__.get('profile'), profs)
+                istate = interp_state()
                 bsnap = {kk: id(v) for kk, v in builtins.__dict__.items() if kk != 'profile'}
                 nsnap = set(ip.user_ns)
                 del grabbed[:]
@@ -283,6 +295,16 @@ def main():
                 so = buf.getvalue()
                 ran = bool(grabbed)
                 p = grabbed[0][0] if ran else None
+                if not ran and exc is not None:
+                    # the statement never started (it does not compile): the magic's profiler is still a
+                    # local of the lprun frame in the traceback
+                    tb = exc.__traceback__
+                    while tb is not None:
+                        cand = tb.tb_frame.f_locals.get('profile') if tb.tb_frame.f_code.co_name == 'lprun' else None
+                        if isinstance(cand, LineProfiler):
+                            p = cand
+                        tb = tb.tb_next
+                in_magic = p is not None and not ran
                 is_prof = isinstance(p, LineProfiler)
                 if is_prof and p is not sentinel and all(p is not q for q in profs.values()):
                     profs[k] = p
@@ -291,15 +313,20 @@ def main():
                     o['kind'] = 0 if (ret is None or ret is p) else 4
                 elif ran:
                     o['kind'] = 3
+                elif type(exc).__name__ == 'UsageError':
+                    o['kind'] = 1
+                elif type(exc).__name__ == 'TypeError' and 'Timer unit setting' in str(exc):
+                    o['kind'] = 2
                 else:
-                    o['kind'] = {'UsageError': 1, 'TypeError': 2}.get(type(exc).__name__, 4)
+                    o['kind'] = 3 if in_magic else 4
                 o['exc'] = None if exc is None else '%s: %s' % (type(exc).__name__, str(exc)[:120])
                 o['ret'] = ret is not None and ret is p
                 o['b_before'] = b_before
                 o['b_during'] = classify(p, profs) if ran else None
                 o['b_after'] = classify(builtins.__dict__.get('profile'), profs)
                 bafter = {kk: id(v) for kk, v in builtins.__dict__.items() if kk != 'profile'}
-                o['builtins_other_same'] = bafter == bsnap
+                o['interp_same'] = interp_state() == istate
+                o['builtins_other_same'] = bafter == bsnap and o['interp_same']
                 o['ns_added'] = sorted(set(ip.user_ns) - nsnap)
                 o['ns_removed'] = sorted(nsnap - set(ip.user_ns))
                 o['pages'] = pages[npages:]
@@ -309,9 +336,11 @@ def main():
                             3 if '*** ' in so.replace('*** Profile ', '') else 0)
                 o['msg_D'] = '*** Profile stats pickled to file' in so
                 o['msg_T'] = '*** Profile printout saved to text file' in so
+                if o['kind'] in (1, 2):
+                    is_prof = False         # stopped before the profiler was put anywhere: nothing of it is observable
                 if is_prof:
                     o['stats'] = stats_of(p)
-                    o['count_during'] = grabbed[0][1]
+                    o['count_during'] = grabbed[0][1] if ran else -1
                     o['count_after'] = p.enable_count
                     live = io.StringIO()
                     u = iv.get('u_ok')
